@@ -197,7 +197,7 @@ def _run_client_history(case, ctx):
         except BaseException as e:  # noqa: BLE001
             if behave._is_ctl(e):
                 raise
-            ctx.skip("import_failed")
+            ctx.violation("package.imports", {"exc": type(e).__name__}, repr(e)[:300])   # the documents are in the domain: a package that cannot be imported decides the property negatively
             return
         with pkg:
             mod = pkg.mod("api.default.get_secure")
@@ -514,7 +514,7 @@ def run(case, ctx):
         except BaseException as e:  # noqa: BLE001
             if behave._is_ctl(e):
                 raise
-            ctx.skip("import_failed")
+            ctx.violation("package.imports", {"exc": type(e).__name__}, repr(e)[:300])   # the documents are in the domain: a package that cannot be imported decides the property negatively
             return
         with pkg:
             for call in case["calls"]:
